@@ -60,6 +60,7 @@ type Unit struct {
 	discov  int // >0: discovery mode (no obligations recorded)
 	entrySt *State
 	params  []Value
+	freeVars []Value
 	loopCtr int
 	inlined map[string]bool
 	extUsed map[string]bool
@@ -436,6 +437,7 @@ func (fr *Frame) cutLoop(li *loopInfo, st *State, pc Term, phiEntry map[*ssa.Phi
 	fr.hdrEntryPhi[li.header] = phiEntry
 	// 1. discover what the loop modifies
 	snap := u.snapshot()
+	snapHeap0 := snap.heap0
 	u.discov++
 	sub := fr.cloneForDiscovery()
 	sub.run(li.blocks, li.header, st, pc, phiEntry, true)
@@ -448,7 +450,11 @@ func (fr *Frame) cutLoop(li *loopInfo, st *State, pc Term, phiEntry map[*ssa.Phi
 			continue
 		}
 		for k, v := range es.heap {
-			if old, ok := st.heap[k]; !ok || old.S != v.S {
+			old, ok := st.heap[k]
+			if !ok {
+				old, ok = snapHeap0[k]
+			}
+			if !ok || old.S != v.S {
 				modHeap[k] = true
 			}
 		}
@@ -507,6 +513,7 @@ func (fr *Frame) cutLoop(li *loopInfo, st *State, pc Term, phiEntry map[*ssa.Phi
 	}
 	// 4. havoc
 	nst := st.clone()
+	var hvRefs []string
 	var hk []string
 	for k := range modHeap {
 		hk = append(hk, k)
@@ -518,6 +525,7 @@ func (fr *Frame) cutLoop(li *loopInfo, st *State, pc Term, phiEntry map[*ssa.Phi
 			u.m.comp(nst, k, modSorts[k])
 		}
 		nst.heap[k] = u.c.Fresh("hv_"+k, modSorts[k])
+		hvRefs = append(hvRefs, k)
 	}
 	hk = hk[:0]
 	for k := range modGhost {
@@ -531,6 +539,11 @@ func (fr *Frame) cutLoop(li *loopInfo, st *State, pc Term, phiEntry map[*ssa.Phi
 		na := u.c.Fresh("alloc", SInt)
 		u.c.Assume(Ge(na, st.alloc))
 		nst.alloc = na
+	}
+	for _, k := range hvRefs {
+		if u.m.refKind[k] {
+			u.m.refAxiom(nst.heap[k], nst.alloc)
+		}
 	}
 	for _, ins := range li.header.Instrs {
 		phi, ok := ins.(*ssa.Phi)
